@@ -71,9 +71,10 @@ def r1(ctx):
     ctx.check("C11.R1", any("st_mtime" in norm(r.ast.value) and "fstat" in norm(r.ast.value) for r in fl.cfg.stmts(ast.Return)), key(fl, "reads-mtime"), site(fl),
               "last_update does not read st_mtime of the heartbeat file", "fstat(fd).st_mtime")
     # gthread keep-alive deadlines
-    fs = ctx.fn(repo.func("gunicorn.workers.gthread.TConn.set_timeout"))
+    from .c13 import deadline_sites, gthread_funcs
     fk = ctx.fn(repo.func("gunicorn.workers.gthread.ThreadWorker.murder_keepalived"))
-    a, b = set(clocks_in(repo, fs)), set(clocks_in(repo, fk))
+    a = set(q for ff in gthread_funcs(repo) for nn, st in deadline_sites(repo, ff) if not isinstance(st, ast.Call) for q in clocks_in(repo, ff, st))
+    b = set(clocks_in(repo, fk))
     ctx.check("C11.R1", len(a) == 1 and a == b, key(fk, "keepalive-clock"), site(fk), "keep-alive deadline uses %s but the reaper uses %s" % (sorted(a), sorted(b)), "both %s" % sorted(a))
 
 
@@ -172,8 +173,18 @@ def r3(ctx):
                     bound = c.args[0]
                 if kind is None:
                     continue
-                v = const(bound, NO) if bound is not None else NO
-                okk = (isinstance(v, (int, float)) and not isinstance(v, bool) and 0 <= v <= 1.0) or (isinstance(bound, ast.Name) and bound.id in f.params and "timeout" in bound.id)
+                def small(e, depth=0):
+                    """a literal 0 <= v <= 1.0, a conditional expression of such, or a local every store to which is such"""
+                    v = const(e, NO) if e is not None else NO
+                    if isinstance(v, (int, float)) and not isinstance(v, bool):
+                        return 0 <= v <= 1.0
+                    if isinstance(e, ast.IfExp):
+                        return small(e.body, depth) and small(e.orelse, depth)
+                    if isinstance(e, ast.Name) and e.id not in f.params and depth < 3:
+                        st = stores_to_name(f, e.id)
+                        return bool(st) and all(isinstance(x.ast, ast.Assign) and small(x.ast.value, depth + 1) for x in st)
+                    return False
+                okk = small(bound) or (isinstance(bound, ast.Name) and bound.id in f.params and "timeout" in bound.id)
                 rows.append({"loop": f.short, "call": norm(c), "bound": norm(bound) if bound is not None else None})
                 ctx.check("C11.R3", okk, key(f, "bounded-block|" + kind), site(f, c),
                           "`%s` inside the heartbeat loop blocks without an explicit finite bound (<= 1.0 s literal or the worker's timeout argument): no heartbeat while it blocks" % norm(c),
